@@ -16,6 +16,7 @@ def check(ctx):
         "enclosing scope's parent). R2 also: the two token derivations use no selecting / reordering iterator adaptor; R7 the scope stack is only accessed from its top (the innermost scope answers).")
     ctx.explanation += (" R8 the scope bundle (C10's rules): scopes opened on every path and refused only when the stack is full, released "
                         "scopes popped with nothing left behind, the stack looked at from its top only and the only per-thread context.")
+    ctx.explanation += (' Round 5: R3 also -- SpanLine::current_collect_token returns None only behind the None edge of self.collect_token.')
     ctx.not_decided = ("that the delivered child record carries that parent for every program point (composition of "
                        "C02/C11 rules); the W3C text round trip is C12.")
     facts = ctx.facts("E")
